@@ -473,13 +473,19 @@ impl<'a> Gen<'a> {
         for e in 1..=n_exec {
             let h = e;
             let mut v = vec![Op::Spawn { h, cfg }];
-            let style = self.rng.weighted(&[40, 40, 20]);
+            // a long session now and then: the memo grows past any plausible bound
+            let long_session = e == 1 && self.rng.pct(10);
+            let style = if long_session { 1 } else { self.rng.weighted(&[40, 40, 20]) };
             if style >= 1 {
                 // warm context: earlier words that poison the memo
-                let k = self.rng.range(1, if self.tier == Tier::Quick { 5 } else { 8 });
+                let k = if long_session {
+                    self.rng.range(25, 70)
+                } else {
+                    self.rng.range(1, if self.tier == Tier::Quick { 5 } else { 8 })
+                };
                 for _ in 0..k {
                     let core: String = target.chars().filter(|c| c.is_ascii_alphabetic()).collect();
-                    let w = match self.rng.weighted(&[30, 25, 25, 20]) {
+                    let w = match self.rng.weighted(&if long_session { [4, 4, 2, 90] } else { [30, 25, 25, 20] }) {
                         0 if !core.is_empty() => core[..self.rng.range(1, core.len() as u64) as usize].to_string(),
                         1 if !core.is_empty() => format!("{}{}", core, self.short_suffix()),
                         2 => target.clone(),
@@ -682,6 +688,16 @@ impl<'a> Gen<'a> {
                 }
             }
         };
+        // a long session before H now and then (memo and other per-context state grow)
+        if self.rng.pct(if cfg.is_phonetic() { 5 } else { 2 }) {
+            let words = self.rng.range(20, 60);
+            for _ in 0..words {
+                let n = self.rng.range(2, 9) as usize;
+                word_ops(self, &mut ops, n);
+                let t = self.terminator(0, true);
+                ops.push(t);
+            }
+        }
         // history H
         let n = self.rng.range(1, 10) as usize;
         word_ops(self, &mut ops, n);
@@ -1133,6 +1149,79 @@ impl<'a> Gen<'a> {
         }
         let n = self.rng.range(6, if self.tier == Tier::Quick { 60 } else { 120 });
         let mut since = 0;
+        // reph scenario: most runs type orthographically well-formed syllables, so that the
+        // placement clause (not only conservation) is judged on most presses
+        let syllabic = reph && self.rng.pct(65);
+        let cons: Vec<&str> = Self::values_of_class(l, |s| s.chars().count() == 1 && fm::is_consonant(s.chars().next().unwrap()));
+        let kars: Vec<&str> = Self::values_of_class(l, |s| s.chars().count() == 1 && fm::is_mapped_kar(s.chars().next().unwrap()));
+        let vows: Vec<&str> = Self::values_of_class(l, |s| s.chars().count() == 1 && fm::is_independent_vowel(s.chars().next().unwrap()));
+        let puncts: Vec<&str> = Self::values_of_class(l, |s| s.chars().count() == 1 && matches!(s.chars().next().unwrap(), ',' | '-' | '(' | '?' | ')' | '!' | ';'));
+        if syllabic && !cons.is_empty() && !kars.is_empty() {
+            let mut i = 0;
+            while i < n {
+                i += 1;
+                if since >= 22 {
+                    ops.push(Op::Finish { h: 0 });
+                    since = 0;
+                    continue;
+                }
+                let mut vals: Vec<String> = Vec::new();
+                match self.rng.weighted(&[70, 12, 10, 8]) {
+                    0 => {
+                        vals.push(self.rng.pick(&cons).to_string());
+                        let joins = self.rng.weighted(&[55, 30, 15]);
+                        for _ in 0..joins {
+                            if self.rng.pct(25) && l.by_value.contains_key("\u{09CD}\u{09B0}") {
+                                vals.push("\u{09CD}\u{09B0}".into());
+                            } else {
+                                vals.push("\u{09CD}".into());
+                                vals.push(self.rng.pick(&cons).to_string());
+                            }
+                        }
+                        if self.rng.pct(55) {
+                            vals.push(self.rng.pick(&kars).to_string());
+                        }
+                        if self.rng.pct(18) {
+                            vals.push("\u{0981}".into());
+                        }
+                    }
+                    1 if !vows.is_empty() => {
+                        vals.push(self.rng.pick(&vows).to_string());
+                        if self.rng.pct(15) {
+                            vals.push("\u{0981}".into());
+                        }
+                    }
+                    2 if !puncts.is_empty() => vals.push(self.rng.pick(&puncts).to_string()),
+                    _ => {
+                        // something outside the grammar now and then
+                        ops.push(self.fixed_class_key(l, 0));
+                        since += 1;
+                    }
+                }
+                for v in vals {
+                    if let Some(op) = self.fixed_key_for_value(l, &v) {
+                        ops.push(op);
+                        since += 1;
+                    }
+                }
+                if self.rng.pct(45) {
+                    if let Some(op) = self.fixed_key_for_value(l, fm::REPH) {
+                        ops.push(op);
+                        since += 2;
+                    }
+                }
+                match self.rng.weighted(&[80, 10, 10]) {
+                    0 => {}
+                    1 => ops.push(Op::Bs { h: 0, ctrl: false }),
+                    _ => {
+                        let t = self.terminator(0, true);
+                        ops.push(t);
+                        since = 0;
+                    }
+                }
+            }
+            return Plan { scenario, hash_seed: self.rng.next_u64(), prelude: Prelude::default(), ops };
+        }
         for _ in 0..n {
             if since >= 24 {
                 ops.push(Op::Finish { h: 0 });
